@@ -1085,6 +1085,7 @@ fn apply_call(env: &mut Env, call: &Call, out: &mut Outcome, dist: &mut Option<&
             }
         }
         Call::Restart => {
+            name = "Restart (EventLog::new + ContinuityStore::new)".into();
             reopen_ws(env, out.cur_ws);
             out.coq_calls.push("D (K KRestart)".into());
             if let Some(d) = dist.as_deref_mut() {
